@@ -8,6 +8,7 @@ import (
 	"net/http"
 	"net/http/httptest"
 	"sort"
+	"strings"
 	"sync"
 	"time"
 
@@ -43,12 +44,28 @@ func newLWServer() *lwServer {
 	return s
 }
 
-var lwKinds = map[string]string{"configmaps": "ConfigMap", "secrets": "Secret"}
+// resource (as addressed on the server) -> kind. Widgets are served in two API versions: two resources, one GroupKind.
+var lwKinds = map[string]string{"configmaps": "ConfigMap", "secrets": "Secret", "v1/widgets": "Widget", "v2/widgets": "Widget"}
+
+func lwAPIVersion(res string) string {
+	switch res {
+	case "v1/widgets":
+		return "example.verif/v1"
+	case "v2/widgets":
+		return "example.verif/v2"
+	}
+	return "v1"
+}
 
 func (s *lwServer) handle(w http.ResponseWriter, r *http.Request) {
-	// /api/v1/<resource>
+	// /api/v1/<resource> or /apis/example.verif/<version>/<resource>
 	var res string
-	if n, _ := fmt.Sscanf(r.URL.Path, "/api/v1/%s", &res); n != 1 || lwKinds[res] == "" {
+	if strings.HasPrefix(r.URL.Path, "/apis/example.verif/") {
+		res = strings.TrimPrefix(r.URL.Path, "/apis/example.verif/")
+	} else if n, _ := fmt.Sscanf(r.URL.Path, "/api/v1/%s", &res); n != 1 {
+		res = ""
+	}
+	if lwKinds[res] == "" {
 		http.NotFound(w, r)
 		return
 	}
@@ -58,7 +75,7 @@ func (s *lwServer) handle(w http.ResponseWriter, r *http.Request) {
 		items := append([]map[string]any{}, s.objs[res]...)
 		rv := s.rv
 		s.mu.Unlock()
-		_ = json.NewEncoder(w).Encode(map[string]any{"kind": lwKinds[res] + "List", "apiVersion": "v1",
+		_ = json.NewEncoder(w).Encode(map[string]any{"kind": lwKinds[res] + "List", "apiVersion": lwAPIVersion(res),
 			"metadata": map[string]any{"resourceVersion": fmt.Sprint(rv)}, "items": items})
 		return
 	}
@@ -101,7 +118,7 @@ func (s *lwServer) handle(w http.ResponseWriter, r *http.Request) {
 func (s *lwServer) add(res, name string) {
 	s.mu.Lock()
 	s.rv++
-	o := map[string]any{"apiVersion": "v1", "kind": lwKinds[res], "metadata": map[string]any{"name": name, "namespace": NS,
+	o := map[string]any{"apiVersion": lwAPIVersion(res), "kind": lwKinds[res], "metadata": map[string]any{"name": name, "namespace": NS,
 		"uid": fmt.Sprintf("uid-%s-%d", name, s.rv), "resourceVersion": fmt.Sprint(s.rv)}}
 	s.objs[res] = append(s.objs[res], o)
 	for _, ch := range s.subs[res] {
@@ -170,6 +187,8 @@ func runC12Real(w *World, name string, script []c12RealOp) {
 	mapper := meta.NewDefaultRESTMapper(nil)
 	mapper.Add(gvkConfigMap, meta.RESTScopeNamespace)
 	mapper.Add(gvkSecret, meta.RESTScopeNamespace)
+	mapper.Add(gvkWidget, meta.RESTScopeNamespace)
+	mapper.Add(gvkWidget.GroupKind().WithVersion("v2"), meta.RESTScopeNamespace)
 	c := dynamiccache.NewCache(&rest.Config{Host: srv.srv.URL}, w.Scheme, mapper, nil)
 	// three handlers: two sources of one controller (controller-runtime starts all sources of a controller with the
 	// same work queue) and one source of another controller
@@ -188,13 +207,13 @@ func runC12Real(w *World, name string, script []c12RealOp) {
 		must(c.Source(h).Start(rootCtx, q))
 	}
 	must(c.Start(rootCtx))
-	kinds := map[string]schema.GroupVersionKind{"k1": gvkConfigMap, "k2": gvkSecret}
-	resOf := map[string]string{"k1": "configmaps", "k2": "secrets"}
+	kinds := map[string]schema.GroupVersionKind{"k1": gvkConfigMap, "k2": gvkSecret, "k3": gvkWidget, "k4": gvkWidget.GroupKind().WithVersion("v2")}
+	resOf := map[string]string{"k1": "configmaps", "k2": "secrets", "k3": "v1/widgets", "k4": "v2/widgets"}
 	owners := map[string]bool{}
 	probes := 0
 	state := func() map[string]any {
 		refs, serving := map[string]any{}, []string{}
-		for _, k := range []string{"k1", "k2"} {
+		for _, k := range []string{"k1", "k2", "k3", "k4"} {
 			os := []string{}
 			for _, o := range c.OwnersForGKV(kinds[k]) {
 				os = append(os, o.Name)
@@ -219,7 +238,7 @@ func runC12Real(w *World, name string, script []c12RealOp) {
 		switch op.Op {
 		case "Watch":
 			ctx, cancel := context.WithCancel(rootCtx)
-			obj := (&c12World{kinds: map[string]schema.GroupVersionKind{"k1": gvkConfigMap, "k2": gvkSecret}}).obj(op.Kind)
+			obj := (&c12World{kinds: kinds}).obj(op.Kind)
 			if err := c.Watch(ctx, c12Owner(op.Owner), obj); err != nil {
 				res = "Error"
 			}
@@ -277,6 +296,8 @@ func init() {
 			{Op: "Watch", Owner: "o1", Kind: "k1"}, {Op: "Watch", Owner: "o1", Kind: "k1", Cancel: true},
 			{Op: "Watch", Owner: "o2", Kind: "k1", Cancel: true}, {Op: "Watch", Owner: "o2", Kind: "k2", Cancel: true},
 			{Op: "Free", Owner: "o1"}, {Op: "Free", Owner: "o2"}, {Op: "Probe", Kind: "k1"}, {Op: "Probe", Kind: "k2"},
+			// one kind served in two API versions
+			{Op: "Watch", Owner: "o1", Kind: "k3"}, {Op: "Watch", Owner: "o2", Kind: "k4", Cancel: true}, {Op: "Watch", Owner: "o1", Kind: "k4"},
 		}
 		var scripts [][]c12RealOp
 		var rec func(p []c12RealOp)
@@ -299,7 +320,7 @@ func init() {
 				break
 			}
 			// every script ends with probes of both kinds
-			s = append(s, c12RealOp{Op: "Probe", Kind: "k1"}, c12RealOp{Op: "Probe", Kind: "k2"})
+			s = append(s, c12RealOp{Op: "Probe", Kind: "k1"}, c12RealOp{Op: "Probe", Kind: "k2"}, c12RealOp{Op: "Probe", Kind: "k3"}, c12RealOp{Op: "Probe", Kind: "k4"})
 			runC12Real(w, fmt.Sprintf("c12-real-%d", i), s)
 			n++
 		}
